@@ -161,6 +161,8 @@ func init() {
 			},
 			Eval:  evalC07(1, gridSpec{P1: []int{0}, P2: allP2, P4: []int{0, 3}, P5: []int{2}, SZ: []int{4}}.list()),
 			Bound: "all edge lists with <=3 edges x 13 assignments of adversarial names (leading/trailing whitespace, case variants, composed/decomposed Unicode, helper-node look-alikes, empty string) x {ns,lp} x {sink,ns}: caller's edge list and size map unmodified, <=1 deviation"})
+		ps = append(ps, &Pass{Name: "option-sequences", Space: optSequences(3), Eval: evalC07Options, BudgetS: 10, HeapMB: 512,
+			Bound: fmt.Sprintf("every sequence of <=3 options from an alphabet of %d (two different size maps, fixed size, spacings incl. 0, positioners, routers, breaker, layerer, virtual-node output, thoroughness, forced b&k layout) x %d graphs: caller's edge slice and every size map unchanged, the same call repeated after a different call returns the same layout", len(optAlphabet), len(optGraphs))})
 		if tier == "thorough" {
 			ps = append(ps, &Pass{Name: "D(6,6..7)-d1", Space: spaceD(6, 6, 7, false), BudgetS: 10, HeapMB: 512,
 				Eval:  evalC07(1, []Cfg{{P1: 0, P2: 0, P4: 1, P5: 2, SZ: 1, NS: 4, LS: 8, TH: -1}, {P1: 0, P2: 0, P4: 3, P5: 2, SZ: 1, NS: 4, LS: 8, TH: -1}}),
